@@ -63,16 +63,170 @@ macro_rules! twin_step {
     (@ratio $nd:ident, grid) => {{ let k = $nd.u8(); (k as f64) / 32.0 }};
 }
 
+
+/// control decisions right after a ratio change, without a processing call (cheap): every f64
+macro_rules! twin_getters {
+    ($nd:ident, $a:ident, $b:ident) => {{
+        ctrl!($a, $b, "C17.control_getters[base]");
+        let newr = $nd.f64();
+        let ramp = $nd.bool();
+        let rel = $nd.bool();
+        let (ra, rb) = if rel { ($a.set_resample_ratio_relative(newr, ramp), $b.set_resample_ratio_relative(newr, ramp)) }
+                       else { ($a.set_resample_ratio(newr, ramp), $b.set_resample_ratio(newr, ramp)) };
+        check!(ra.is_ok() == rb.is_ok(), "C17.control_setter[base]");
+        ctrl!($a, $b, "C17.control_getters[base]");
+        cover!(ra.is_ok() && ramp, "accepted ramped change");
+        cover!(ra.is_err(), "rejected change");
+    }};
+}
+
+/// one call at a concrete ratio (after a concrete ramped change): counts and copy-kernel values
+macro_rules! twin_call_concrete {
+    ($nd:ident, $a:ident, $b:ident, $MI:expr, $MO:expr, $ratio:expr) => {{
+        check!($a.set_resample_ratio($ratio, true).is_ok() && $b.set_resample_ratio($ratio, true).is_ok(), "C03.ok[base]");
+        ctrl!($a, $b, "C17.control_getters[base]");
+        let n = $b.input_frames_next();
+        $crate::fit!($nd, n <= $MI && $a.input_frames_next() <= $MI, "C17.demand_fits_scenario_bound[base]");
+        let mut x32 = [0.0f32; $MI];
+        let mut x64 = [0.0f64; $MI];
+        crate::drive::fill_line(&mut x32[..], 0);
+        crate::drive::fill_line(&mut x64[..], 0);
+        let mut o32 = [SENT as f32; $MO];
+        let mut o64 = [SENT; $MO];
+        let na = $a.input_frames_next();
+        let r32 = $a.process_into_buffer(&[&x32[..na]], &mut [&mut o32[..]], None);
+        let r64 = $b.process_into_buffer(&[&x64[..n]], &mut [&mut o64[..]], None);
+        match (r32, r64) {
+            (Ok(c32), Ok(c64)) => {
+                check!(c32 == c64, "C17.control_counts[base]");
+                let mut same = true;
+                unroll32!(i, $MO, { if o32[i].to_bits() != (o64[i] as f32).to_bits() { same = false; } });
+                check!(same, "C17.copy_kernel_values[base]");
+            }
+            _ => { check!(false, "C17.control_result[base]"); }
+        }
+        ctrl!($a, $b, "C17.control_getters[base]");
+    }};
+}
+
 harnesses! {
+    // ---- quick: control decisions for every f64 (no processing call)
+    #[kani::unwind(6)]
+    fn c17_ffo_getters(nd) {
+        let mut a = FastFixedOut::<f32>::new(0.75, 2.0, PolynomialDegree::Cubic, 3, 1).unwrap();
+        let mut b = FastFixedOut::<f64>::new(0.75, 2.0, PolynomialDegree::Cubic, 3, 1).unwrap();
+        twin_getters!(nd, a, b);
+        forget(a); forget(b);
+    }
+    #[kani::unwind(6)]
+    fn c17_sfo_getters(nd) {
+        let mut a = SincFixedOut::<f32>::new_with_interpolator(1.25, 2.0, SincInterpolationType::Cubic, probe::boxed32(8, 2), 3, 1).unwrap();
+        let mut b = SincFixedOut::<f64>::new_with_interpolator(1.25, 2.0, SincInterpolationType::Cubic, probe::boxed64(8, 2), 3, 1).unwrap();
+        twin_getters!(nd, a, b);
+        forget(a); forget(b);
+    }
+    #[kani::unwind(6)]
+    fn c17_fixedin_getters(nd) {
+        let mut a = FastFixedIn::<f32>::new(0.75, 2.0, PolynomialDegree::Cubic, 3, 1).unwrap();
+        let mut b = FastFixedIn::<f64>::new(0.75, 2.0, PolynomialDegree::Cubic, 3, 1).unwrap();
+        twin_getters!(nd, a, b);
+        let mut c = SincFixedIn::<f32>::new_with_interpolator(1.25, 2.0, SincInterpolationType::Cubic, probe::boxed32(8, 2), 3, 1).unwrap();
+        let mut d = SincFixedIn::<f64>::new_with_interpolator(1.25, 2.0, SincInterpolationType::Cubic, probe::boxed64(8, 2), 3, 1).unwrap();
+        twin_getters!(nd, c, d);
+        forget(a); forget(b); forget(c); forget(d);
+    }
+    // ---- quick: one call at a concrete ratio: counts and copy-kernel values
     #[kani::unwind(10)]
-    fn c17_ffo(nd) {
+    fn c17_ffo_call(nd) {
+        let mut a = FastFixedOut::<f32>::new(1.0, 2.0, PolynomialDegree::Nearest, 2, 1).unwrap();
+        let mut b = FastFixedOut::<f64>::new(1.0, 2.0, PolynomialDegree::Nearest, 2, 1).unwrap();
+        twin_call_concrete!(nd, a, b, 12, 2, 0.75);
+        forget(a); forget(b);
+    }
+    #[kani::unwind(10)]
+    fn c17_sfo_call(nd) {
+        probe::reset_flags();
+        let mut a = SincFixedOut::<f32>::new_with_interpolator(1.0, 2.0, SincInterpolationType::Nearest, probe::boxed32(8, 1), 2, 1).unwrap();
+        let mut b = SincFixedOut::<f64>::new_with_interpolator(1.0, 2.0, SincInterpolationType::Nearest, probe::boxed64(8, 1), 2, 1).unwrap();
+        twin_call_concrete!(nd, a, b, 12, 2, 1.5);
+        forget(a); forget(b);
+    }
+    #[kani::unwind(24)]
+    fn c17_ffi_call(nd) {
+        let mut a = FastFixedIn::<f32>::new(1.0, 2.0, PolynomialDegree::Nearest, 10, 1).unwrap();
+        let mut b = FastFixedIn::<f64>::new(1.0, 2.0, PolynomialDegree::Nearest, 10, 1).unwrap();
+        twin_call_concrete!(nd, a, b, 10, 26, 0.75);
+        forget(a); forget(b);
+    }
+    // ---- real constructors (table generation, kernel selection) size everything alike
+    #[kani::unwind(30)]
+    #[kani::stub(rubato::CpuFeature::is_detected, crate::stubs::not_detected)]
+    fn c17_real_new_8(nd) {
+        use rubato::{SincInterpolationParameters, WindowFunction};
+        let p32 = SincInterpolationParameters { sinc_len: 8, f_cutoff: 0.9, oversampling_factor: 2,
+            interpolation: SincInterpolationType::Linear, window: WindowFunction::Hann };
+        let p64 = SincInterpolationParameters { sinc_len: 8, f_cutoff: 0.9, oversampling_factor: 2,
+            interpolation: SincInterpolationType::Linear, window: WindowFunction::Hann };
+        let a = SincFixedOut::<f32>::new(1.0, 1.0, p32, 2, 1).unwrap();
+        let b = SincFixedOut::<f64>::new(1.0, 1.0, p64, 2, 1).unwrap();
+        ctrl!(a, b, "C17.control_getters[base]");
+        forget(a); forget(b);
+    }
+    #[kani::unwind(30)]
+    #[kani::stub(rubato::CpuFeature::is_detected, crate::stubs::not_detected)]
+    fn c17_real_new_20(nd) {
+        use rubato::{SincInterpolationParameters, WindowFunction};
+        // sinc_len 20 is rounded up (to 24) by the constructor: the rounding must not depend on the sample type
+        let p32 = SincInterpolationParameters { sinc_len: 20, f_cutoff: 0.9, oversampling_factor: 1,
+            interpolation: SincInterpolationType::Nearest, window: WindowFunction::Hann };
+        let p64 = SincInterpolationParameters { sinc_len: 20, f_cutoff: 0.9, oversampling_factor: 1,
+            interpolation: SincInterpolationType::Nearest, window: WindowFunction::Hann };
+        let a = SincFixedOut::<f32>::new(1.0, 1.0, p32, 2, 1).unwrap();
+        let b = SincFixedOut::<f64>::new(1.0, 1.0, p64, 2, 1).unwrap();
+        ctrl!(a, b, "C17.control_getters[base]");
+        forget(a); forget(b);
+    }
+    // ---- synchronous types: one call of an f32/f64 pair
+    #[kani::unwind(12)]
+    #[kani::stub(realfft::RealFftPlanner::<f64>::new, crate::stubs::planner_new)]
+    #[kani::stub(realfft::RealFftPlanner::<f64>::plan_fft_forward, crate::stubs::plan_fwd)]
+    #[kani::stub(realfft::RealFftPlanner::<f64>::plan_fft_inverse, crate::stubs::plan_inv)]
+    #[kani::stub(realfft::RealFftPlanner::<f32>::new, crate::stubs::planner_new)]
+    #[kani::stub(realfft::RealFftPlanner::<f32>::plan_fft_forward, crate::stubs::plan_fwd)]
+    #[kani::stub(realfft::RealFftPlanner::<f32>::plan_fft_inverse, crate::stubs::plan_inv)]
+    #[kani::stub(rubato::sinc::make_sincs, crate::stubs::make_sincs_unit)]
+    fn c17_fto_call(nd) {
+        let mut a = FftFixedOut::<f32>::new(2, 3, 4, 2, 1).unwrap();
+        let mut b = FftFixedOut::<f64>::new(2, 3, 4, 2, 1).unwrap();
+        ctrl!(a, b, "C17.control_getters[base]");
+        let mut x32 = [0.0f32; 8];
+        let mut x64 = [0.0f64; 8];
+        crate::drive::fill_line(&mut x32[..], 0);
+        crate::drive::fill_line(&mut x64[..], 0);
+        let mut o32 = [SENT as f32; 4];
+        let mut o64 = [SENT; 4];
+        let n = b.input_frames_next();
+        crate::fit!(nd, n <= 8 && a.input_frames_next() <= 8, "C17.demand_fits_scenario_bound[base]");
+        let na = a.input_frames_next();
+        let ra = a.process_into_buffer(&[&x32[..na]], &mut [&mut o32[..]], None);
+        let rb = b.process_into_buffer(&[&x64[..n]], &mut [&mut o64[..]], None);
+        check!(matches!((&ra, &rb), (Ok(p), Ok(q)) if p == q), "C17.control_counts[base]");
+        // values are not compared: natively the real FFT (not the stub) runs, whose f32/f64 results differ by rounding
+        ctrl!(a, b, "C17.control_getters[base]");
+        forget(a); forget(b);
+    }
+
+    // ---- thorough: symbolic step on both twins
+
+    #[kani::unwind(10)]
+    fn c17_ffo_step(nd) {
         let mut a = FastFixedOut::<f32>::new(1.0, 2.0, PolynomialDegree::Nearest, 2, 1).unwrap();
         let mut b = FastFixedOut::<f64>::new(1.0, 2.0, PolynomialDegree::Nearest, 2, 1).unwrap();
         twin_step!(nd, a, b, 12, 2, full, true);
         forget(a); forget(b);
     }
     #[kani::unwind(10)]
-    fn c17_sfo(nd) {
+    fn c17_sfo_step(nd) {
         probe::reset_flags();
         let mut a = SincFixedOut::<f32>::new_with_interpolator(1.0, 2.0, SincInterpolationType::Nearest, probe::boxed32(8, 1), 2, 1).unwrap();
         let mut b = SincFixedOut::<f64>::new_with_interpolator(1.0, 2.0, SincInterpolationType::Nearest, probe::boxed64(8, 1), 2, 1).unwrap();
@@ -80,7 +234,7 @@ harnesses! {
         forget(a); forget(b);
     }
     #[kani::unwind(12)]
-    fn c17_ffi(nd) {
+    fn c17_ffi_step(nd) {
         let mut a = FastFixedIn::<f32>::new(1.0, 2.0, PolynomialDegree::Nearest, 2, 1).unwrap();
         let mut b = FastFixedIn::<f64>::new(1.0, 2.0, PolynomialDegree::Nearest, 2, 1).unwrap();
         // warm-up so that the loop produces frames
@@ -98,7 +252,7 @@ harnesses! {
         forget(a); forget(b);
     }
     #[kani::unwind(12)]
-    fn c17_sfi(nd) {
+    fn c17_sfi_step(nd) {
         probe::reset_flags();
         let mut a = SincFixedIn::<f32>::new_with_interpolator(1.0, 2.0, SincInterpolationType::Nearest, probe::boxed32(8, 1), 2, 1).unwrap();
         let mut b = SincFixedIn::<f64>::new_with_interpolator(1.0, 2.0, SincInterpolationType::Nearest, probe::boxed64(8, 1), 2, 1).unwrap();
@@ -117,24 +271,6 @@ harnesses! {
     }
 
 
-    // the real constructors (table generation, kernel selection) must size everything alike for f32 and f64
-    #[kani::unwind(30)]
-    #[kani::stub(rubato::CpuFeature::is_detected, crate::stubs::not_detected)]
-    fn c17_real_new_getters(nd) {
-        use rubato::{SincInterpolationParameters, WindowFunction};
-        let which = nd.bool();
-        let len = if which { 8 } else { 20 };
-        let p32 = SincInterpolationParameters { sinc_len: len, f_cutoff: 0.9, oversampling_factor: 2,
-            interpolation: SincInterpolationType::Linear, window: WindowFunction::Hann };
-        let p64 = SincInterpolationParameters { sinc_len: len, f_cutoff: 0.9, oversampling_factor: 2,
-            interpolation: SincInterpolationType::Linear, window: WindowFunction::Hann };
-        let a = SincFixedOut::<f32>::new(1.0, 1.0, p32, 2, 1).unwrap();
-        let b = SincFixedOut::<f64>::new(1.0, 1.0, p64, 2, 1).unwrap();
-        ctrl!(a, b, "C17.control_getters[base]");
-        cover!(which, "sinc_len 8");
-        cover!(!which, "sinc_len 20 (rounded up to 24)");
-        forget(a); forget(b);
-    }
 
     // synchronous types: getters and counts over 3 calls (no symbolic parameter exists)
     #[kani::unwind(12)]
@@ -145,7 +281,7 @@ harnesses! {
     #[kani::stub(realfft::RealFftPlanner::<f32>::plan_fft_forward, crate::stubs::plan_fwd)]
     #[kani::stub(realfft::RealFftPlanner::<f32>::plan_fft_inverse, crate::stubs::plan_inv)]
     #[kani::stub(rubato::sinc::make_sincs, crate::stubs::make_sincs_unit)]
-    fn c17_fft(nd) {
+    fn c17_fft_3calls(nd) {
         let mut a = FftFixedOut::<f32>::new(2, 3, 4, 1, 1).unwrap();
         let mut b = FftFixedOut::<f64>::new(2, 3, 4, 1, 1).unwrap();
         let mut c = FftFixedIn::<f32>::new(3, 2, 4, 1, 1).unwrap();
